@@ -8,11 +8,11 @@ props = {json.loads(l)["id"]: json.loads(l) for l in open(os.path.join(HERE, "pr
 ob = json.load(open(os.path.join(HERE, "lean", "obligations.json")))
 
 TABLE = {
- "C01": ("8.1", "Lean theorems J2M.C01.generate_sound(_names) (every sample inhabits the type generate infers, with hashStr injectivity J2M.HashInj.hashStr_inj discharging de-duplication) and J2M.C01R.registry_sound / mergeModels_sound / processTy_sound (acceptance is preserved through process_meta_data and merge_models, for graphs with pointers and cycles) over the model of detect/DUnion/merge_field_sets/optimize/resolve/registry; stage-wise differential tie (detect, mkunion, hash, mergefs, optimize, generate, pipeline, render) to the code; falsifier execs the emitted module and checks every sample (structural + pydantic parse_obj)",
-         "render-stage soundness (field filters, literal limit, per-framework view of a type) is carried by the render tie (byte-equal text), J2M.C04.typing_denotes and the falsifier, not by one composed theorem; hypotheses: JSON objects have distinct keys, acyclic replaces relation, ReplacesSound (IntString ⊆ FloatString), registry kind names are identifiers; keys in C11's documented domain"),
+ "C01": ("8.1", "Lean theorems J2M.C01.generate_sound(_names) (every sample inhabits the type generate infers, with hashStr injectivity J2M.HashInj.hashStr_inj discharging de-duplication) and J2M.C01R.registry_sound / mergeModels_sound / processTy_sound (acceptance is preserved through process_meta_data and merge_models, for graphs with pointers and cycles) and J2M.C01S.typing_widens / fields_kept / class_accepts / C01_pipeline_sound(_flat, _flat_prepared) (the annotation emitted for a type admits every value of the type, in every framework and layout; exactly the null-only keys are dropped for pydantic/sqlmodel; the class table read off the emitted class body accepts every sample object, composed with registry_sound and generate_names) over the model of detect/DUnion/merge_field_sets/optimize/resolve/registry/renderer; stage-wise differential tie (detect, mkunion, hash, mergefs, optimize, generate, pipeline, render) to the code; falsifier execs the emitted module and checks every sample (structural + pydantic parse_obj)",
+         "C01_pipeline_sound is stated over an abstract acceptance relation for annotations (AnnInh) and class tables (TabAccepts, stricter than pydantic); that pydantic/attrs/dataclasses read the text this way is observed by the falsifier (T5); named hypotheses: PydBridge (actual-type view of pseudo-types), distinct reference texts (discharged for the flat layout by C03N/refsDistinct_of_flat_rendering under ConvFix); hypotheses: JSON objects have distinct keys, acyclic replaces relation, ReplacesSound (IntString ⊆ FloatString), registry kind names are identifiers; keys in C11's documented domain"),
  "C02": ("8.2", "J2M.C02T.generate_tight / C02_tight (position-wise: every type `generate` emits is witnessed by the sample values routed to that position — Optional only with a null or an absent key, every union member / element type / literal value observed, Any only under a container observed empty — for all samples, options and oracles; negative examples show the relation is not trivial) and the per-function lemmas J2M.C02.* + tie; falsifier routes every sample value down the real registry graph and checks each position",
          "proved for the generator stage (generate_tight); tightness through the registry merge (merge_field_sets on already optional fields) rests on the merge_hasOpt_iff lemma, the tie and the falsifier; `Dict[str, Any]` next to a model is admitted when SOME mapping at the position was empty (the all-empty form is false for the code: dictAny_all_empty_false)"),
- "C03": ("8.3", "theorems on names/layout (J2M.C03/C11/C12: blacklist facts by kernel evaluation over the blacklist extracted from the code on every run, labels never blacklisted, sort_fields required-before-optional, flat layout is a permutation of the registry) + per-program translation validation: emitted text equals the Lean model's text byte for byte, and the falsifier compiles, execs and resolves every annotation",
+ "C03": ("8.3", "theorems on names/layout (J2M.C03/C11/C12: blacklist facts by kernel evaluation over the blacklist extracted from the code on every run, labels never blacklisted, sort_fields required-before-optional, flat layout is a permutation of the registry), J2M.C03S.refs_resolve_flat(_module) / typing_ok_iff / generateNames_named (every quoted reference of every field annotation is the final name of a registered class that the field type points to; exact condition for an annotation to be renderable) and J2M.C03N.prepareNames_distinct / generateCode_class_names_distinct / prepareNames_layout_independent (class names are converted and made pairwise distinct before anything is rendered, independently of the layout) + per-program translation validation: emitted text equals the Lean model's text byte for byte, and the falsifier compiles, execs and resolves every annotation",
          "scopeOk over a Python AST model is not formalised; 'executes under CPython' is observed per explored program (T5); nested layout claimed for trees"),
  "C04": ("8.4", "J2M.C04.typing_denotes / imports_exact / field_line_* / alias_iff_renamed / alias_roundtrip / metadata_roundtrip (the annotation text is the print of the denoted typing term; alias and repr texts lex back to the exact key, for all strings) + byte-equal render tie; falsifier compares the frameworks' own field tables with an independent rendering of the registry",
          "CPython/typing/pydantic evaluate the text the way the lexer and Ann models say (validated per explored program)"),
@@ -28,17 +28,17 @@ TABLE = {
          "float/date/time/datetime parsers are oracles: their round trip is checked on explored strings only (partial by design)"),
  "C10": ("8.10", "J2M.C10R.single_field_generate / single_field_annotation(_lib) (end to end for one position, all sample lists: the annotation is Literal[...] listing exactly the sorted distinct plain strings iff each is shorter than 20, at most 15 are distinct, their number is below the limit and the framework uses literals — with the limits instantiated from the constants extracted from the code — and the emitted argument list lexes back to exactly those strings), J2M.C10.mkLit_overflow_iff, fold_literals, literal_roundtrip_raw, literal_list_split, J2M.C10b.attrs_no_literal / max_literals_zero_no_literal; tie mkunion/optimize/generate/render + lexer vs ast.literal_eval; falsifier evaluates the annotations",
          "single-field positions are proved end to end; positions inside nested/merged models rely on the same per-stage theorems composed by the tie"),
- "C11": ("8.11", "J2M.C11.blacklist_suffix_safe / prepareLabel_not_blacklisted / label facts + J2M.C04.alias_iff_renamed / alias_roundtrip / metadata_roundtrip; tie: render stage with recorded unidecode/inflection/re tables; falsifier reads alias/metadata from the loaded module",
+ "C11": ("8.11", "J2M.C11.blacklist_suffix_safe / prepareLabel_not_blacklisted / label facts, J2M.C03N.generateCode_class_names_distinct (emitted class names pairwise distinct) + J2M.C04.alias_iff_renamed / alias_roundtrip / metadata_roundtrip; tie: render stage with recorded unidecode/inflection/re tables; falsifier reads alias/metadata from the loaded module",
          "domain as documented (keys with an ASCII-transliterable letter, key universe pairwise distinct after folding); folded-equal keys and empty labels are listed known findings"),
  "C12": ("8.12", "J2M.C12.flat_perm / flat_once / flat_root_first / nested_once / nested_tree and J2M.C12R.layouts_agree(_tree, _rooted) / genClass_decomp (for rooted tree graphs both layouts are assembled from the same class heads — same names, fields, annotations, defaults — the nested text only inserts the children's blocks); tie: pipeline projections flat/nested + render for both layouts; falsifier loads both modules and compares class tables, nesting parents, root first",
          "hypotheses of layouts_agree_rooted (Tree, distinct indices, a depth rank on the parent relation, fields follow pointers) are those of graphs built from tree-shaped inputs; CPython's reading of the two texts is observed by the falsifier"),
- "C13": ("8.13", "J2M.C13.dict_iff / field_dict_iff / nested_dict_iff / toplevel_always_model / dict_value_sound; tie detect/generate/pipeline with the (pattern,key) match table recorded from re; falsifier recomputes the iff with re per object position",
+ "C13": ("8.13", "J2M.C13.dict_iff / field_dict_iff / nested_dict_iff / toplevel_always_model / dict_value_sound and J2M.C13S.processTy_models / dictlike_no_model / own_model_iff (registration creates exactly one model per object node that is not dict-like, with that node's keys, in pre-order; a dict-like object creates none); tie detect/generate/pipeline with the (pattern,key) match table recorded from re; falsifier recomputes the iff with re per object position",
          "regular-expression matching is an oracle; CLI anchoring checked by the C16 option tie"),
- "C14": ("8.14", "J2M.C14.ctx_restored / history_free_ctx / fresh_process_obs (the reference context is restored on every path; observations of a body depend only on its own slot) and J2M.C14R.render_twice_partial / render_twice_flat / render_twice_tree / cross_framework(_layouts) (rendering a registry again, or for another framework / layout under the same naming options, gives the text of a fresh registry; the unrestricted statement is refuted by a non-tree witness, render_twice_Statement_false); tie: several render jobs on one registry vs the implementation; falsifier: histories of <=4 calls in one process vs each call alone in a fresh process",
+ "C14": ("8.14", "J2M.C14.ctx_restored / history_free_ctx / fresh_process_obs (the reference context is restored on every path; observations of a body depend only on its own slot) and J2M.C14R.render_twice_partial / render_twice_flat / render_twice_tree / cross_framework(_layouts) (rendering a registry again, or for another framework / layout under the same naming options, gives the text of a fresh registry; render_twice_prepared: no readiness condition once names are prepared and stable; the unrestricted statement is refuted only for an adversarial blacklist, render_twice_Statement_false); tie: several render jobs on one registry vs the implementation; falsifier: histories of <=4 calls in one process vs each call alone in a fresh process",
          "only the context and name-mutation state are modelled; other process state (third-party caches) is exercised by the falsifier"),
  "C15": ("8.15", "J2M.C15.worker_thread_ok / noninterference / interleaving_irrelevant / exec_other_threads over the per-thread context model; falsifier: 2-8 concurrent pipelines behind a barrier under switchinterval 1e-6 vs solo runs, and calls from a fresh worker thread",
          "partial: CPython's real interleavings, GIL, third-party caches cannot be exhibited by the model; they are exercised, not proved"),
- "C16": ("8.16", "J2M.C16.lookup_path(_any) / assemble_closed_form / assemble_concat / split_doc / split_arg / wrap_list / opts_table; tie: assemble/lookup/parsemerge ops vs Cli.setup_models_data / dict_lookup / merge-policy table; falsifier: real CLI subprocess vs in-process library call with the mapped options, -o file bytes",
+ "C16": ("8.16", "J2M.C16.lookup_path(_any) / assemble_closed_form / assemble_concat / split_doc / split_arg / wrap_list / opts_table and J2M.C16A.* (kwargs items, pattern split, -m tuple shapes of Cli.set_args); tie: assemble/lookup/parsemerge ops vs Cli.setup_models_data / dict_lookup / merge-policy table; falsifier: real CLI subprocess vs in-process library call with the mapped options, -o file bytes",
          "globbing and file parsing are inputs of the model; process boundary observed by the falsifier"),
  "C17": ("8.17", "J2M.C17.fail_is_clean / success_iff / success_is_complete / fault_classes over the effect-trace model of main(); falsifier: 30+ fault kinds x position x existing -o target in real subprocesses (exit status, stdout, SHA-256 of the target)",
          "the trace model is tied to the code by the fault-injection runs; half-written files (OS faults) outside the model"),
